@@ -15,6 +15,8 @@ import Driver.MtHist
 import Driver.BddChk
 import Driver.ParseChk
 import Driver.MetaChk
+import Driver.OrdVecChk
+import Driver.AchainChk
 import Vata.Proofs.LtsSim
 /-!
 # vdriver – the model side of the correspondence check
@@ -467,6 +469,13 @@ def checkCliOp (args res : List String) : Except String (Findings × String) := 
   | _ => throw s!"unknown cli op {op}"
   pure (f, tag ++ s!" emptyA={bchar eA} emptyR={bchar (← emptyE R)}")
 
+/-- utility classes under the algorithms (sorted vectors, antichain containers, relations …): their models are part of the
+    modelled code, not of a property statement – any difference between class and model is a broken correspondence
+    (`mismatch`), never by itself a refutation of the property under which the case was run -/
+def utilKind (what : String) (r : Except String (List String × String)) : Except String (Findings × String) := do
+  let (f, tag) ← r
+  pure (f.map (fun x => if x.startsWith "violation " then s!"mismatch {what}: " ++ (x.drop 10).toString else s!"mismatch {what}: " ++ x), "util " ++ tag)
+
 def dispatch (kind : String) (args res : List String) : Except String (Findings × String) :=
   match kind with
   | "incl" => checkIncl args res
@@ -494,6 +503,8 @@ def dispatch (kind : String) (args res : List String) : Except String (Findings 
   | "bddh" => BddChk.checkHist args res
   | "bddtd" => BddChk.checkToTd args res
   | "mthrc" => MtHist.check true args res
+  | "ordvec" => utilKind "OrdVector" (OrdVecChk.check args res)
+  | "achain" => utilKind "antichain containers" (AchainChk.check args res)
   | "cliop" => checkCliOp args res
   | "apisweep" =>
     -- API sweep of C20: nothing functional is judged (a sanitizer report / crash never reaches this point); the tag is
